@@ -115,12 +115,21 @@ class Check:
         self.hashes = set()
         self.nontrivial = set()
         self.proof = dict(ok=False, obligations=0, discharged=0, assumptions='', cone=[], log='')
+        self.engine_missing = []
+        self.vamh_distinct = 0
+        self.vamh_nontrivial = 0
+        self.race_exit = None
         self.spec = PROPS.get(pid)
 
     # ------------------------------------------------------------------ builds
     def build(self):
         notes = []
         need = ['muh']
+        if self.spec and self.spec.get('vamh'):
+            need.append('vamh')
+        for e in (self.spec or {}).get('eng', {}):
+            if os.path.exists('%s/harness/cmd/%s/main.go' % (V, e)):
+                need.append(e)
         rc, out, err = sh(['bash', V + '/bin/build-harness'] + need, timeout=1800)
         if rc != 0:
             notes.append('harness build failed: ' + (out + err)[-2000:])
@@ -354,6 +363,156 @@ class Check:
             rc, out, err = sh([B + '/muh', 'gen', '-algo', algo, '-seed', str(s), '-n', str(n), '-ops', str(ops), '-profile', prof], timeout=3000)
             self.corr_text(out, algo, prof, 'generated algo=%s profile=%s seed=%d' % (algo, prof, s))
 
+    # ------------------------------------------------------------------ generic engines (ENGINES.md)
+    def engine_component(self, eng, profiles):
+        ej = '%s/harness/cmd/%s/engine.json' % (V, eng)
+        binp, drv = '%s/%s' % (B, eng), '%s/ocaml/drv_%s' % (B, eng)
+        if not (os.path.exists(ej) and os.path.exists(binp)):
+            self.engine_missing.append(eng)
+            return
+        meta = json.load(open(ej))
+        opk = tuple(meta.get('ops', []))
+        profs = profiles or meta.get('profiles', ['basic'])
+        n, ops = (80, 60) if self.quick else (2500, 150)
+        for pi, prof in enumerate(profs):
+            s = (self.seed * 1000003 + pi * 7919 + sum(map(ord, eng))) % (1 << 62)
+            rc, out, err = sh([binp, 'gen', '-seed', str(s), '-n', str(n), '-ops', str(ops), '-profile', prof], timeout=3000)
+            tp = '%s/%s-%s.trace' % (self.rundir, eng, prof)
+            open(tp, 'w').write(out)
+            hi = split_histories(out, opk)
+            if os.path.exists(drv):
+                rc2, mout, merr = sh([drv, tp], timeout=1200)
+                hm = split_histories(mout, opk)
+            else:
+                hm, rc2 = [], 1
+                self.engine_missing.append(eng + ' (model driver)')
+            for i, h in enumerate(hi):
+                self.cov['evaluations'] += 1
+                hh = ophash([eng] + h['head'][1:] + h['ops'])
+                if hh not in self.hashes:
+                    self.hashes.add(hh)
+                    if len(h['ops']) >= meta.get('nontrivial_min_ops', 5):
+                        self.nontrivial.add(hh)
+                for o in h['ops']:
+                    k = eng + ':' + o.split(' ', 1)[0]
+                    self.cov['distribution'][k] = self.cov['distribution'].get(k, 0) + 1
+                a = [l for l in h['lines'] if not l.startswith('ORACLE-FAIL')]
+                b = hm[i]['lines'] if i < len(hm) else None
+                mine = [l for l in h['fails'] if ('property=%s ' % self.pid) in l]
+                self.cov['oracle_failures'] += len(mine)
+                new = [l for l in mine if not self.known.match(self.pid, l)]
+                for l in mine:
+                    kf = self.known.match(self.pid, l)
+                    if kf:
+                        self.known_hits.append((kf, l))
+                if new and len([v for v in self.violations if v[2]]) < 3:
+                    rp = '%s/replays/%s-%s-%s.trace' % (V, self.pid, eng, ophash(h['ops']))
+                    open(rp, 'w').write('# %s: oracle failure on the real code (engine %s profile %s seed %d)\n# %s\n' % (self.pid, eng, prof, s, new[0]) + '\n'.join(h['lines']) + '\n')
+                    self.violations.append((rp, new[0], True))
+                elif b is not None and a != b:
+                    self.cov['mismatches'] += 1
+                    if len([v for v in self.violations if not v[2]]) < 3:
+                        j = 0
+                        while j < len(a) and j < len(b) and a[j] == b[j]:
+                            j += 1
+                        rp = '%s/replays/%s-%s-corr-%s.trace' % (V, self.pid, eng, ophash(h['ops']))
+                        open(rp, 'w').write('# %s: correspondence broken (engine %s): first divergence impl %r model %r\n# --- implementation trace\n%s\n# --- model trace\n%s\n' % (
+                            self.pid, eng, a[j] if j < len(a) else '<end>', b[j] if j < len(b) else '<end>', '\n'.join(h['lines']), '\n'.join(b)))
+                        self.violations.append((rp, 'correspondence mismatch (engine %s) impl=%r model=%r' % (eng, a[j] if j < len(a) else '<end>', b[j] if j < len(b) else '<end>'), False))
+                elif b is not None:
+                    self.cov['traces_validated_against_impl'] += 1
+            if hi and len(self.cov['samples']) < 6:
+                h = min(hi[:50], key=lambda x: abs(len(x['ops']) - 8))
+                self.cov['samples'].append(dict(component=eng, profile=prof, history=h['head'][1:] + h['ops'][:12],
+                                                observed=[l for l in h['lines'] if l.startswith('R ')][:12]))
+
+    # ------------------------------------------------------------------ whole allocator (vamh)
+    VAMH_ALSO = {'C10': ('C13',), 'C02': (), 'C20': ()}
+
+    def vamh_failures(self, failures, source, under_faults=False):
+        for f in failures or []:
+            prop, sig = f.get('property'), f.get('sig', '')
+            if prop != self.pid:
+                continue
+            if under_faults and 'released-spare-block' in sig:
+                continue    # giving back a spare block after a device fault is not a leak (C10)
+            line = 'ORACLE-FAIL property=%s sig=%s %s' % (prop, sig, f.get('example_detail', ''))
+            self.cov['oracle_failures'] += f.get('histories', 1)
+            kf = self.known.match(self.pid, line)
+            if kf:
+                self.known_hits.append((kf, line))
+                continue
+            rp = '%s/replays/%s-vamh-%s.trace' % (V, self.pid, re.sub(r'[^A-Za-z0-9]+', '-', sig)[:60])
+            mt = f.get('minimal_trace')
+            if mt and os.path.exists(mt):
+                shutil.copy(mt, rp)
+            else:
+                open(rp, 'w').write('# %s\n' % line)
+            self.violations.append((rp, line + ' [' + source + ']', True))
+
+    def vamh_component(self, vs):
+        if not os.path.exists(B + '/vamh'):
+            self.engine_missing.append('vamh')
+            return
+        # corpus of minimal failing traces found earlier (all must be fixed/absent now)
+        rc, out, err = sh([B + '/vamh', 'check', V + '/harness/cmd/vamh/corpus'], timeout=1800)
+        for l in out.split('\n'):
+            if 'STILL FAILS' in l or 'other failures' in l:
+                sigs = l.split('FAILS')[-1] if 'STILL FAILS' in l else l.split('other failures')[-1]
+                for ps in sigs.split():
+                    if ps.startswith(self.pid + '/'):
+                        line = 'ORACLE-FAIL property=%s sig=%s corpus trace %s' % (self.pid, ps.split('/', 1)[1], l.split()[0])
+                        if self.known.match(self.pid, line):
+                            self.known_hits.append((self.known.match(self.pid, line), line))
+                        else:
+                            rp = V + '/harness/cmd/vamh/corpus/' + l.split()[0]
+                            self.violations.append((rp, line, True))
+            if l.strip():
+                self.cov['corpus_entries'] += 1
+        n, ops = (150, 80) if self.quick else (6000, 140)
+        outd = self.rundir + '/vamh'
+        sj = self.rundir + '/vamh.json'
+        rc, out, err = sh([B + '/vamh', 'gen', '-seed', str(self.seed % (1 << 62)), '-n', str(n), '-ops', str(ops), '-profile', ','.join(vs['profiles']),
+                           '-out', outd, '-keep-traces=false', '-summary', sj], timeout=3300)
+        try:
+            d = json.load(open(sj))
+        except Exception:
+            self.violations.append((self.write_note('vamh-run', out + err), 'vamh gen did not produce a summary', False))
+            return
+        self.cov['evaluations'] += d.get('histories', 0)
+        reach = d.get('histories_reaching', {})
+        self.vamh_distinct = d.get('distinct_histories', 0)
+        self.cov['distribution'].update({'vamh:' + k: v for k, v in d.get('op_kinds', {}).items()})
+        self.cov['vamh'] = {k: d.get(k) for k in ('histories', 'distinct_histories', 'total_ops', 'results_by_op', 'error_codes', 'driver_calls',
+                                                  'hysteresis_toggles', 'cross_block_defrag_moves', 'defrag_passes', 'max_live_allocs',
+                                                  'max_blocks_in_one_list', 'histories_reaching', 'histories_per_profile')}
+        self.vamh_nontrivial = max([0] + [v for k, v in reach.items() if k in ('three_or_more_device_memory_objects', 'device_memory_freed_before_teardown', 'allocator_destroyed')])
+        self.vamh_failures(d.get('oracle_failures'), 'vamh gen seed=%d' % self.seed)
+        if len(self.cov['samples']) < 6:
+            self.cov['samples'].append(dict(component='vamh', profiles=vs['profiles'], note='op kinds and results of this run', ops=d.get('op_kinds'), results=d.get('results')))
+        for prof in vs.get('faults', []):
+            fn, fo = (6, 40) if self.quick else (60, 60)
+            rc, out, err = sh([B + '/vamh', 'faults', '-seed', str((self.seed + 5) % (1 << 62)), '-n', str(fn), '-ops', str(fo), '-profile', prof, '-out', outd + '-faults'], timeout=3300)
+            try:
+                fd = json.loads(out[out.index('{'):])
+            except Exception:
+                continue
+            self.cov['evaluations'] += sum((fd.get('faults_by_op') or {}).values())
+            self.cov.setdefault('fault_points', {})[prof] = fd.get('faults_by_op')
+            self.vamh_failures(fd.get('oracle_failures'), 'vamh faults profile=%s' % prof, under_faults=True)
+        if vs.get('race') and os.path.exists(B + '/vamh_race'):
+            dur = '5s' if self.quick else '60s'
+            rc, out, err = sh([B + '/vamh_race', 'race', '-seed', str(self.seed % (1 << 62)), '-dur', dur, '-workers', '8'], timeout=1800)
+            open(self.rundir + '/race.err', 'w').write(err)
+            rc2, sout, serr = sh([B + '/vamh', 'racesum', self.rundir + '/race.err'], timeout=300)
+            self.cov['race'] = dict(exit=rc, summary=sout[-3000:])
+            self.race_exit, self.race_summary = rc, sout
+
+    def write_note(self, tag, text):
+        rp = '%s/replays/%s-%s.txt' % (V, self.pid, tag)
+        open(rp, 'w').write(text[-6000:])
+        return rp
+
     def corpus(self):
         spec = self.spec
         for f in sorted(glob.glob(V + '/corpus/*.ops')):
@@ -412,6 +571,10 @@ class Check:
                 self.muh_component(algo, profs)
             if self.spec.get('muh'):
                 self.muh_component('leaf', ['leaf'])
+            for eng, profs in self.spec.get('eng', {}).items():
+                self.engine_component(eng, profs)
+            if self.spec.get('vamh'):
+                self.vamh_component(self.spec['vamh'])
             self.in_coq()
         else:
             # model does not build: still search the implementation with the oracles
@@ -423,7 +586,9 @@ class Check:
                         if any(('property=%s ' % pid) in l for l in h['fails']):
                             self.handle_history(h, None, 'generated (model build broken)')
                             break
-        self.cov['distinct_nontrivial'] = len(self.nontrivial)
+        self.cov['distinct_nontrivial'] = len(self.nontrivial) + self.vamh_nontrivial
+        if self.engine_missing:
+            self.violations.append((self.write_note('engine-missing', 'engines that did not build: %s' % self.engine_missing), 'engine missing: %s' % self.engine_missing, False))
         rcode = 0
         for kf, l in {id(k): (k, l) for k, l in self.known_hits}.values():
             print('KNOWN-FINDING: property=%s %s [%s]' % (pid, kf['text'], kf['sig']))
